@@ -15,7 +15,9 @@ DESCRIPTION = {
              "doNotCompress), fragmentation, adversarial read schedules; oracle as C01 plus: doNotCompress messages travel with RSV1 clear and raw payload, RSV1 only on "
              "first frames, an independent raw-deflate inflater reproduces every compressed deflate message from the wire. (c) Negative handshakes: responses naming an "
              "unknown extension, repeating a compression extension, with unknown/duplicated/out-of-range/valued-flag parameters or declined by the accept policy must make "
-             "the client drop without opening; malformed offers make the server refuse or ignore them.  Non-trivial = >=2 messages in a direction with context takeover, a "
+             "the client drop without opening; malformed offers make the server refuse or ignore them. (d) Enumerated raw frames into an endpoint that negotiated "
+             "permessage-deflate: RSV1 on first frames only delivers the original messages; RSV1 on a continuation frame (of a compressed or an uncompressed message), on a "
+             "control frame or combined with RSV2/RSV3 fails the connection (1002 / drop) and the offending message is not delivered.  Non-trivial = >=2 messages in a direction with context takeover, a "
              "non-default parameter, or a negative case; lattice points count once each."),
     "assumptions": ["snappy is not installed in the sandbox: its classes are not exercised", "integers with leading zeros / underscores accepted by int() in parameters are don't-cares"],
 }
@@ -33,9 +35,99 @@ def plan(tier, seed):
     for i, fw in enumerate(("twisted", "asyncio")):
         for sh in range(2 if quick else 6):
             jobs.append({"func": "traffic", "fw": fw, "name": "traffic/%s/%d" % (fw, sh), "args": {"seed": seed * 1000 + i * 100 + sh, "n": n}})
+        jobs.append({"func": "framebits", "fw": fw, "name": "framebits/%s" % fw, "args": {}})
         jobs.append({"func": "brotli_context_takeover", "fw": fw, "name": "brotli-ctx/%s" % fw, "args": {}})
         jobs.append({"func": "negative", "fw": fw, "name": "negative/%s" % fw, "args": {"seed": seed * 1000 + i * 100 + 50, "n": 150 if quick else 1500}})
     return jobs
+
+
+# ---------------------------------------------------------------- (d) the compression bit on incoming frames
+
+def framebits(col):
+    """Enumerated: raw frames from a scripted peer into a library endpoint that negotiated permessage-deflate (both roles, failByDrop on/off, one read / byte-wise /
+    several reads per loop turn).  Valid uses of RSV1 (first frame of a compressed message only, uncompressed messages in between, control frames interleaved) deliver
+    the original messages; RSV1 on a continuation frame (of a compressed or of an uncompressed message), on a control frame, or together with RSV2/RSV3 fails the
+    connection with 1002 and the offending message is not delivered."""
+    import struct
+    from harness import ref6455
+    from checks.c02_ws_receive import Rx
+
+    def deflate_stream():
+        c = zlib.compressobj(zlib.Z_DEFAULT_COMPRESSION, zlib.DEFLATED, -15)
+        return lambda data: (c.compress(data) + c.flush(zlib.Z_SYNC_FLUSH))[:-4]
+    A = ("text " * 40 + "ü€").encode("utf-8")
+    B = bytes(range(256)) * 3
+    # scenario: list of (opcode, fin, rsv, payload-spec) where payload-spec is ("raw", bytes) or ("z", k, n, bytes): piece k of n of the compressed form
+    scenarios = {
+        "valid/compressed-single": ([("msg", A, True, 1, None)], [(False, A)], None),
+        "valid/compressed-3-fragments": ([("msg", A, True, 3, None)], [(False, A)], None),
+        "valid/uncompressed-fragmented-in-compressed-session": ([("msg", B, False, 3, None)], [(True, B)], None),
+        "valid/mixed-with-ping-inside": ([("msg", A, True, 2, "ping"), ("msg", B, False, 2, None), ("msg", A, True, 1, None)], [(False, A), (True, B), (False, A)], None),
+        "bad/rsv1-on-continuation-of-compressed": ([("msg", A, True, 3, "rsv1@1")], [], 1002),
+        "bad/rsv1-on-final-continuation-of-compressed": ([("msg", A, True, 3, "rsv1@2")], [], 1002),
+        "bad/rsv1-on-continuation-of-uncompressed": ([("msg", B, False, 3, "rsv1@1")], [], 1002),
+        "bad/rsv1-on-final-continuation-of-uncompressed": ([("msg", B, False, 2, "rsv1@1")], [], 1002),
+        "bad/rsv1-on-ping": ([("msg", A, True, 1, None), ("ctl", 9, 4)], [(False, A)], 1002),
+        "bad/rsv1-on-pong": ([("ctl", 10, 4)], [], 1002),
+        "bad/rsv1-on-close": ([("ctl", 8, 4)], [], 1002),
+        "bad/rsv1+rsv2-on-data": ([("msg", A, True, 1, "rsv=6")], [], 1002),
+        "bad/rsv1+rsv3-on-data": ([("msg", A, True, 1, "rsv=5")], [], 1002),
+        "bad/rsv2-on-data": ([("msg", B, False, 1, "rsv=2")], [], 1002),
+        "bad/valid-then-rsv1-continuation": ([("msg", A, True, 1, None), ("msg", B, False, 2, "rsv1@1"), ("msg", A, True, 1, None)], [(False, A)], 1002),
+    }
+    for server in (True, False):
+        for fbd in (False, True):
+            for name, (items, want, code) in sorted(scenarios.items()):
+                for schedule in ("one", "bytes", "burst"):
+                    z = deflate_stream()
+                    mk = b"\x5a\xa5\x11\x22" if server else None
+                    data = b""
+                    for it in items:
+                        if it[0] == "ctl":
+                            data += ref6455.encode_frame(it[1], b"" if it[1] != 8 else struct.pack("!H", 1000), rsv=it[2], mask=mk)
+                            continue
+                        _, payload, compressed, nfrag, twist = it
+                        body = z(payload) if compressed else payload
+                        cuts = [len(body) * k // nfrag for k in range(1, nfrag)]
+                        parts = [body[a:b] for a, b in zip([0] + cuts, cuts + [len(body)])]
+                        for k, part in enumerate(parts):
+                            rsv = 4 if (compressed and k == 0) else 0
+                            if twist and twist.startswith("rsv1@") and int(twist[5:]) == k:
+                                rsv = 4
+                            if twist and twist.startswith("rsv=") and k == 0:
+                                rsv = int(twist[4:])
+                            if twist == "ping" and k == 1:
+                                data += ref6455.encode_frame(9, b"hb", mask=mk)
+                            data += ref6455.encode_frame((1 if payload is A else 2) if k == 0 else 0, part, fin=(k == len(parts) - 1), rsv=rsv, mask=mk)
+                    case = {"check": "framebits", "server": server, "fbd": fbd, "scenario": name, "schedule": schedule}
+                    rx = Rx(server, True, fbd, {"utf8validateIncoming": True})
+                    if schedule == "one":
+                        rx.feed(data)
+                    else:
+                        step = 1 if schedule == "bytes" else 7
+                        for k, i in enumerate(range(0, len(data), step)):
+                            rx.feed(data[i:i + step], settle=(schedule == "bytes" or k % 4 == 3))
+                        rx.feed(b"")
+                    obs = rx.finish()
+                    key = "C12|framebits|" + name
+                    if obs["escaped"] or obs["loop_errors"]:
+                        raise Violation(key + "|exception-escaped", repr((obs["escaped"] or obs["loop_errors"])[0])[:300], case)
+                    got = [(e[1], e[2]) for e in obs["events"] if e[0] == "msg"]
+                    if got != want:
+                        raise Violation(key + ("|delivered-despite-violation" if len(got) > len(want) else "|delivery-differs"), "%s/%s/%s: delivered %r, expected %r" % (
+                            "server" if server else "client", "drop" if fbd else "close", schedule, brief(got), brief(want)), case)
+                    closes = [f for f in obs["frames"] if f.opcode == 8]
+                    if code is None:
+                        if closes or obs["dropped"]:
+                            raise Violation(key + "|valid-stream-failed", "close frames %r dropped=%r" % ([f.payload[:2].hex() for f in closes], obs["dropped"]), case)
+                    elif fbd:
+                        if not obs["dropped"] or closes:
+                            raise Violation(key + "|violation-not-failed", "failByDrop: dropped=%r close frames=%d" % (obs["dropped"], len(closes)), case)
+                    else:
+                        if len(closes) != 1 or closes[0].payload[:2] != struct.pack("!H", code):
+                            raise Violation(key + "|violation-not-failed", "expected one close frame %d, wrote %r" % (code, [f.payload[:2].hex() for f in closes]), case)
+                    col.case(True, enum=True, cls=["framebits/" + name], sample=case)
+    col.exhaustive.append("C12 framebits: 15 RSV1 scenarios x roles x failByDrop x 3 read schedules")
 
 
 # ---------------------------------------------------------------- (a) lattice
@@ -451,6 +543,9 @@ def replay(col, case):
     kind = c.get("check")
     if kind == "lattice":
         pass
+    elif kind == "framebits":
+        framebits(col)
+        return
     elif "pmce" in c:
         c["pmce"] = {k: (tuple(v) if isinstance(v, list) else v) for k, v in c["pmce"].items()}
         check_traffic(c)
